@@ -81,7 +81,8 @@ EXTRA = {
            "shared with C01-R11)."
            " No state shared between SourceFinder instances (R16)."
            " The priorized fitting box is cut with row bounds from row quantities and column bounds from column quantities (R17); pa_limit / fix_shape are interpreted over sample values (R4)."
-           " Island rows take their polarity the way the component fit does (R18); the formatters reproduce a reference decomposition over sample angles (R19); both RA wraps are interpreted (R4).",
+           " Island rows take their polarity the way the component fit does (R18); the formatters reproduce a reference decomposition over sample angles (R19); both RA wraps are interpreted (R4)."
+           " The psf accessors hand positions to the conversions in (row, column) order (R20).",
     "C04": " Also: each err_* field depends on the stderr of its own "
            "parameter (R8, dependency analysis), covariance-model contract "
            "sites (R9), no narrow dtype in fitting.py (R7)."
@@ -103,7 +104,8 @@ EXTRA = {
            "completion (R11)."
            " Argument binding (R12), groupby only over sorted sequences "
            "(R13), axis of clip bounds (R6)."
-           " Single-pixel look-ups are guarded at both ends of both axes (R14); the psf branch of resize is interpreted over sample sizes (R15).",
+           " Single-pixel look-ups are guarded at both ends of both axes (R14); the psf branch of resize is interpreted over sample sizes (R15)."
+           " A Beam is built from a psf accessor value only after a finiteness test (R16).",
     "C06": " Also: double precision until the final cast (R6), row / column "
            "axis discipline of the worker (R7), plane addressing of 3-d / "
            "4-d inputs (R8)."
@@ -119,7 +121,8 @@ EXTRA = {
            " No finite barrier timeout (R3); exported buffer views are "
            "released before close() (R4)."
            " The closing node of each interpolation axis is >= the range stop for every stripe height (R8)."
-           " The stripe count does not depend on the worker count when a request is given (R9).",
+           " The stripe count does not depend on the worker count when a request is given (R9)."
+           " The background is removed from the whole loaded block, halo rows included (R10).",
     "C08": " Also: bypass paths of the set operations only where the "
            "operation is the identity (R3), the cache is never mutated in "
            "place (R9), no narrow integer / float dtype (R10), add_pixels "
@@ -130,7 +133,8 @@ EXTRA = {
            " Shape builders store inclusive-query pixels at the query "
            "level (R14), plain pickling (R15), the normaliser writes "
            "only levels 1..maxdepth (R6)."
-           " Every given pixel is merged (R11), the area is count x pixel area of the deepest level (R8), union covers all deeper levels (R3).",
+           " Every given pixel is merged (R11), the area is count x pixel area of the deepest level (R8), union covers all deeper levels (R3)."
+           " Only non-finite positions are forced to False, per position (R17).",
     "C09": " Also: membership look-up contract of numpy.isin (R6), the "
            "non-finite mask is exact and taken from values that are still "
            "non-finite (R3), angular-length vs coordinate kinds."
@@ -150,7 +154,8 @@ EXTRA = {
            " Masked table cells become undefined positions (R10), "
            "nothing memoised in regions / MIMAS (R11)."
            " The membership look-up is called within numpy.isin's contract (R12)."
-           " Coordinate columns reach the membership test with their mask (R10, callers included); the position list holds one entry per pixel in blocks of one row (R7).",
+           " Coordinate columns reach the membership test with their mask (R10, callers included); the position list holds one entry per pixel in blocks of one row (R7)."
+           " Blanks are stored into the image itself, not through a method result (R2).",
     "C11": " Also: the tested pixels are exactly the own pixels (R2), the "
            "flattening sees every stored level (R6)."
            " The region is never re-bound or dropped on a partial test; "
@@ -187,7 +192,8 @@ EXTRA = {
            "transformation family (R9); outputs of make_residual (R8)."
            " Argument binding in AeRes (R10); sorting a pair of "
            "axis-typed values loses the axis role (R1)."
-           " Threshold selection interpreted for frac in {None, 0, 0.0, 0.25} (R5); log-level dependent blocks bind nothing used later (R12); model centre = position - 1 (R13).",
+           " Threshold selection interpreted for frac in {None, 0, 0.0, 0.25} (R5); log-level dependent blocks bind nothing used later (R12); model centre = position - 1 (R13)."
+           " The command line turns a non-positive --frac into None (R14).",
     "C15": " Also: node arrays not edited after their definition, "
            "decimation starts at pixel 0 (R3)."
            " Row and column extents of compress never influence each "
@@ -198,7 +204,8 @@ EXTRA = {
            "files are opened unscaled (R7)."
            " Every key rescaled by compress is rescaled back by expand "
            "(R2); nothing memoised in fits_tools (R8)."
-           " compress followed by expand restores every keyword and removes the BN_ keywords, interpreted over model headers (R2); the integer bookkeeping of compress is interpreted over sample sizes (R9); one HDU index (R10).",
+           " compress followed by expand restores every keyword and removes the BN_ keywords, interpreted over model headers (R2); the integer bookkeeping of compress is interpreted over sample sizes (R9); one HDU index (R10)."
+           " The header returned for a compressed auxiliary file is the expanded header with the band's two changes (R11).",
     "C16": " Also: dependency of each output of the ellipse / vector "
            "transforms on its own inputs (R5), |cos(defect)| correction in "
            "both siblings (R7), no narrow dtype (R6)."
@@ -208,7 +215,8 @@ EXTRA = {
            "(R10)."
            " No snapping of computed coordinates to constants (R3), no "
            "in-place arithmetic on an inherited dtype (R11)."
-           " Argument binding over wcs_helpers (R12).",
+           " Argument binding over wcs_helpers (R12)."
+           " The pixel-plane halves of the vector / ellipse conversions are inverse (R13, interpreted over sample vectors); the constant pixel beam is the one __init__ stores (R14).",
     "C17": " Also: conditioning near zero separation (R6), purity of the "
            "vectorised primitives (R7), no narrow dtype (R8)."
            " The rounded seconds are an integer number of output "
@@ -216,7 +224,8 @@ EXTRA = {
            " The placeholder is returned exactly for non-finite input "
            "(R9); no snapping in translate (R3)."
            " The quantum of the rounded total is one printed unit (R4)."
-           " arcsin / arccos arguments are clamped (R10); no whole-array decision in the formula functions (R11); the formatters reproduce a reference decomposition (R12); the parser's arithmetic is D +- (M/60 + S/3600) (R5).",
+           " arcsin / arccos arguments are clamped (R10); no whole-array decision in the formula functions (R11); the formatters reproduce a reference decomposition (R12); the parser's arithmetic is D +- (M/60 + S/3600) (R5)."
+           " The sign of a parsed angle is read from the first field (R5).",
     "C18": " Also: exhaustive type dispatch of the sqlite and FITS writers "
            "(R7), value provenance in the reader (R4)."
            " No reordering between catalogue and table rows (R8)."
@@ -231,7 +240,8 @@ EXTRA = {
            "the greedy variant joins the matched group exactly once "
            "(R9)."
            " groupby only over sorted sequences (R10), island and "
-           "component numbers written together (R2).",
+           "component numbers written together (R2)."
+           " Record columns are filled with the attribute of their name (R12).",
     "C20": " Also: plane addressing of cubes with sibling agreement (R5), "
            "BSCALE applied exactly once (R6)."
            " No memoised or module-level state on the load path (R7)."
